@@ -174,6 +174,8 @@ add('C20',
     level='exploration',
     rule='every string up to length 5-7 over reduced alphabets of the syntactically relevant characters for printf_format, fmt(), parse_arguments (4 option tables) and to_number<int8..uint64>, plus grammar-generated/mutated longer inputs, each from an exact-size buffer (printf: exact-size va_list computed by an independent tokenizer) under ASan+UBSan; stopping through frg_panic is accepted',
     jobs=[job('parsers', 'c20_parsers.cpp', shards={'quick': 8, 'thorough': 16}, hang_is_violation=True),
+          # the kernel/freestanding configuration of printf.hpp (no long double): code under the macro is code too
+          job('parsers_no_long_double', 'c20_parsers.cpp', defines=['-DFRG_DONT_USE_LONG_DOUBLE'], shards={'quick': 4, 'thorough': 8}, quick_args=['--scale', '0.3'], hang_is_violation=True),
           job('fuzz', 'fuzz_parsers.cpp', flavour='fuzz', tiers=('thorough',), shards={'thorough': 12}, fuzz_runs={'thorough': 1000000}, dict='fuzz_parsers.dict', max_len=192, timeout=3000)],
     min_evaluations={'quick': 300000, 'thorough': 3000000},
     min_counters={'printf_completed': 50000, 'printf_stopped_by_assertion': 10000, 'fmt_completed': 50000, 'cmdline_completed': 50000, 'cmdline_stopped_by_assertion': 100, 'to_number_value': 10000, 'to_number_null': 10000, 'printf_long_number_cases': 500},
